@@ -78,7 +78,7 @@ def follow_frame(train, h):
     rng = np.random.default_rng(h["seed"])
     rows = [r % len(train) for r in h["rows"]]
     parts = [train.iloc[rows]] if rows else []
-    k = h["fresh"]
+    k = h["fresh"] if not (h.get("index") == "labels" and rows) else 0  # "labels": training rows only, original labels kept
     if k or not rows:
         k = max(k, 1)
         fresh = {}
@@ -219,11 +219,19 @@ def gen():
             "recat": st.booleans(),
         }
     )
+    templates = st.sampled_from(
+        [
+            [["x"], ["z"], ["x", "A"], ["z", "A"]],  # clustering by numerical factors reorders these
+            [["y"], ["x"], ["B"], ["y", "B"], ["x", "B"]],
+            [["x", "B"], ["B"], ["x"]],
+            [["scale(x)"], ["z"], ["scale(x)", "C(G)"], ["z", "C(G)"]],
+        ]
+    )
     return st.fixed_dictionaries(
         {
             "seed": st.integers(0, 10**6),
             "n": st.integers(8, 40),
-            "terms": st.lists(term, min_size=1, max_size=4),
+            "terms": st.one_of(st.lists(term, min_size=1, max_size=4), st.lists(term, min_size=1, max_size=4), templates),
             "intercept": st.booleans(),
             "history": st.lists(hist, min_size=1, max_size=4),
             "output": st.sampled_from(["pandas", "pandas", "numpy", "sparse"]),
